@@ -355,6 +355,8 @@ def plan_C04(tier, seed):
             conts = [[{"op": "reset", "i": 1}] + ct for ct in continuations(kind, n)]
             if q:
                 conts = [conts[0], conts[2]]
+            # ... and one whose first post-reset input is not finite (state that only matters on a non-finite step)
+            conts.append([{"op": "reset", "i": 1}, {"op": "tok", "i": 1, "x": "NaN"}] + continuations(kind, n)[1])
             unb = kind in UNBOUNDED
             depth = (n + 3 if q else n + 4) if unb else 10**6
             if kind in BAR_ONLY and n >= 2:
@@ -402,6 +404,7 @@ def plan_C04(tier, seed):
                 "reset() is compared step by step with a freshly constructed real instance (1e-12 relative) and with the spec's exact value; plus seeded deep "
                 "histories of thousands of ops",
         "assumptions": COMMON_ASSUME + ["'indistinguishable from fresh' is observed through next() outputs, period(), multiplier() and Display only"],
+        "stages": [trace_stage_factory(threads=8, ops_quick=400, ops_thorough=3000, faults=True, seed_salt=4)],
     }
 
 
@@ -419,7 +422,7 @@ def plan_C05(tier, seed):
         sa = {1, 3} if sa else sa
         ba = ba[:2] if ba else ba
         # every merge of short op sequences on the original, a clone taken at any point, an unrelated instance and a late fresh one
-        jobs.append(Job("%s_merge" % kind, {1: a, 2: a, 3: b, 4: a}, initial={1, 3}, salpha=sa, balpha=ba, clones={(1, 2)}, news={4},
+        jobs.append(Job("%s_merge" % kind, {1: a, 2: a, 3: b, 4: a}, initial={1, 3}, salpha=sa, balpha=ba, clones={(1, 2), (1, 3)}, news={4},
                         maxdepth=(6 if q else 7), view=False, emit="EmitLeaf", noovf=False, invariants=inv))
         # clone taken at every reachable state of the original, then interleaved continuations
         for n in ((1, 2, 3) if q else (1, 2, 3, 4)):
@@ -439,6 +442,17 @@ def plan_C05(tier, seed):
                 for k, o in enumerate(ct):
                     c2 += [o, dict(other[k], i=3), dict(o, i=2)] if k % 2 == 0 else [dict(o, i=2), o]
                 conts.append(c2)
+            # clone_from into an instance that already has a (longer) history: the source is reset and fed once, so it is
+            # warming up while the destination's buffer is full of older data
+            ct = continuations(kind, n)[0]
+            c3 = [{"op": "clone", "i": 1, "j": 2}, dict(ct[0], i=2), dict(ct[1], i=2), {"op": "reset", "i": 1}, ct[1], {"op": "cloneinto", "i": 1, "j": 2}]
+            for o in continuations(kind, n)[2]:
+                c3 += [o, dict(o, i=2)]
+            conts.append(c3)
+            c4 = [{"op": "cloneinto", "i": 1, "j": 3}]           # into an instance with another period
+            for o in continuations(kind, n)[1]:
+                c4 += [o, dict(o, i=3)]
+            conts.append(c4)
             unb = kind in UNBOUNDED
             depth = (n + 3) if unb or kind in BAR_ONLY else 10**6
             jobs.append(Job("%s_cl_n%d" % (kind, n), {1: a, 2: a, 3: b}, initial={1, 3}, salpha=sa, balpha=(ba[:5] if ba and n >= 3 else ba), conts=conts,
@@ -524,6 +538,7 @@ def plan_C06(tier, seed):
                 "fixed continuations of n+2 values; plus seeded long histories with random checkpoints where all copies continue for hundreds of steps; "
                 "copies must agree within 1e-12 relative, keep Display/period/multiplier, stay under the size bound, and equal the spec's value",
         "assumptions": COMMON_ASSUME + ["bincode 1.3 is the serialization format exercised (JSON cannot carry the infinities of a fresh Minimum/Maximum)"],
+        "stages": [trace_stage_factory(threads=8, ops_quick=400, ops_thorough=3000, faults=False, seed_salt=6)],
     }
 
 
@@ -545,6 +560,10 @@ def plan_C10(tier, seed):
             lv = (1, 2, 3) if rep % 2 == 0 else (1, 2, 3, 5, 8)
             for _ in range(length):
                 f = {k: rng.choice(lv) for k in "ohlcv"}            # five independent fields
+                if rng.random() < 0.3:
+                    f["v"] = 0                                       # zero volume is a value like any other
+                if rng.random() < 0.15:
+                    f["h"] = f["l"] = f["c"]                         # a one-price bar in the middle of the stream
                 if rng.random() < 0.25:                             # a consistent bar, so that DataItem accepts it
                     lo, mid, hi = sorted([f["h"], f["l"], f["c"]])
                     f.update(h=hi, l=lo, c=mid, o=rng.choice([lo, mid, hi]))
@@ -552,7 +571,7 @@ def plan_C10(tier, seed):
                 g = dict(f)                                          # same documented fields, everything else perturbed
                 g["o"] = rng.choice(lv)
                 if kind not in ("MFI", "OBV"):
-                    g["v"] = rng.choice(lv) + 3
+                    g["v"] = rng.choice(lv) + 3 if f["v"] == 0 or rng.random() < 0.5 else 0
                 if kind not in HLC_KINDS and kind != "MFI":
                     keep = DOC_FIELD.get(kind, "c")
                     for k in "hlc":
@@ -822,6 +841,8 @@ def plan_C17(tier, seed):
         for n in ((1, 2, 3) if q else (1, 2, 3, 4)):
             a = kcfg(kind, n, alt=n)
             sa, ba = free_alpha(kind, with_big=True)
+            if kind in ("ROC", "ER", "SMA", "WMA"):
+                sa = {0, 1, 2, BIG}
             if kind in BAR_ONLY:
                 ba = ba[:4] + [bar(BIG, 1, 2, v=1)]
             extra = (2 if q else 3) if kind not in BAR_ONLY else (1 if q else 2)
@@ -833,7 +854,7 @@ def plan_C17(tier, seed):
             total = 1500 if q else 8000
             xs = []
             while len(xs) < total:
-                xs += regime_stream(rng, rng.randint(n + 2, 4 * n + 40), 1, 15, big=(n <= 30))
+                xs += regime_stream(rng, rng.randint(n + 2, 4 * n + 40), 0 if rep % 2 else 1, 15, big=(n <= 30))
             if kind in BAR_ONLY:     # valid bars with repeated typical prices, zero-volume moves and an occasional spike
                 bs = rand_bars(rng, total)
                 for k in range(0, total, rng.randint(40, 200)):
@@ -1114,11 +1135,13 @@ def plan_C14(tier, seed):
             if kind in BAR_ONLY and n >= 3:
                 ba = ba[:5]
             jobs.append(Job("%s_n%d" % (kind, n), {1: a}, salpha=sa, balpha=ba, maxdepth=depth, noovf=False, invariants=inv, threads=8))
-        for rep in range(1 if q else 3):
+        for rep in range(2 if q else 4):
             n = rng.choice([2, 5, 9, 14, 30])
-            a = kcfg(kind, n, alt=rep)
-            L = 250 if q else 1200
-            if kind in BAR_ONLY or rep == 1:
+            a = kcfg(kind, n, alt=rep + 1)
+            if rep % 2 == 1:
+                a["m"] = Fr(3)                       # wide bands: lower band below zero on low prices
+            L = 200 if q else 1200
+            if kind in BAR_ONLY or rep % 2 == 1:
                 ops = [b_op(1, b) for b in rand_bars(rng, L)]
             else:
                 ops = [s_op(1, x) for x in stream_patterns(rng, L, 1, 30, lively=True)]
@@ -1153,7 +1176,7 @@ def plan_C15(tier, seed):
                 elif kind in ("SLOW_STOCH", "ATR", "KC") and alt == 0 and n <= 2:
                     sa, ba = set(), hb
                 else:
-                    sa, ba = (A5 if kind in ("BB", "MACD", "KC", "ATR") else P3), []
+                    sa, ba = (A5 if kind in ("BB", "MACD", "KC", "ATR", "PPO") else P3), []
                 closed_kind = kind in ("BB", "CCI")
                 depth = 10**6 if closed_kind and n <= 3 else (n + 3 if ba or kind in ("MACD", "PPO", "KC") else n + 4)
                 if ba and n >= 3:
@@ -1167,7 +1190,8 @@ def plan_C15(tier, seed):
             if kind in ("CCI", "CE") or (kind in ("SLOW_STOCH", "ATR", "KC") and rep % 2):
                 ops = [b_op(1, b) for b in rand_bars(rng, L)]
             else:
-                xs = stream_patterns(rng, L, 1, 30, lively=True)
+                lo_ = -30 if (kind in ("MACD", "PPO", "KC", "BB") and rep % 2 == 0) else 1      # any sign: negative and sign-crossing prices
+                xs = stream_patterns(rng, L, lo_, 30, lively=True)
                 if rng.random() < 0.5:
                     xs[rng.randrange(L)] = BIG
                 ops = [s_op(1, x) for x in xs]
@@ -1283,7 +1307,7 @@ PLANS = {
 # ---------------------------------------------------------------------------------------------
 # impl -> spec: the driver records a trace of the real crate, TLC validates it against TaTrace.tla
 
-def trace_stage_factory(threads, ops_quick, ops_thorough, faults):
+def trace_stage_factory(threads, ops_quick, ops_thorough, faults, seed_salt=0):
     import os, json, subprocess, time, shutil, re
     import tlagen
 
@@ -1292,6 +1316,7 @@ def trace_stage_factory(threads, ops_quick, ops_thorough, faults):
         shutil.rmtree(d, ignore_errors=True)
         os.makedirs(d)
         nops = ops_quick if tier == "quick" else ops_thorough
+        seed = seed * 1000 + seed_salt
         p = subprocess.run([BIN, "drive", "--seed", str(seed), "--threads", str(threads), "--ops", str(nops), "--faults", "1" if faults else "0", "--out", d],
                            stdout=subprocess.PIPE, stderr=subprocess.STDOUT, text=True)
         if p.returncode != 0:
